@@ -170,8 +170,24 @@ def run(ctx: Ctx):
         data = subs if axis == 0 else subs.T.copy()
         other = np.arange(m, dtype=float)
         g = NssGrid(data, [grid, other] if axis == 0 else [other, grid], ["s", "o"] if axis == 0 else ["o", "s"])
+        data_before = np.array(g.data, copy=True)
         r = grid_slice_interp(g, val, "s" if t % 2 else axis)
-        got = np.asarray(r.data, dtype=np.float64).ravel()
+        got = np.array(r.data, dtype=np.float64, copy=True).ravel()
+        # the slice is a grid of its own: what its owner does to it (normalising, clamping in place — the library's own inverse
+        # sampler clamps the slice it takes) must not reach the table it was cut from, nor a later slice at the same coordinate
+        if t % 3 == 0:
+            try:
+                rd = np.asarray(r.data)
+                if rd.flags.writeable and rd.size:
+                    rd[...] = 0
+                r2 = grid_slice_interp(g, val, "s" if t % 2 else axis)
+                ctx.count("slice_then_edit_slice")
+                if not (np.array_equal(np.asarray(g.data), data_before, equal_nan=True) and np.array_equal(np.asarray(r2.data, dtype=np.float64).ravel(), got, equal_nan=True)):
+                    ctx.violation("grid_slice_interp", "slice-aliases-the-grid",
+                                  "after the owner of a slice edits it in place, the grid it was cut from (or a second slice at the same coordinate) has changed",
+                                  {"grid": grid.tolist(), "value": val, "kind": ["node", "between", "end", "node+-ulp"][kind], "dtype": str(np.asarray(g.data).dtype)})
+            except Exception as ex:  # noqa
+                ctx.notes.append(f"slice-then-edit probe raised {type(ex).__name__}")
         subs = subs.astype(np.float64)          # the reference and the model blend the VALUES (exact in binary64 up to 2^53)
         lines.append(f"slice {n} {m} {fh(grid)} {fh(subs)} {f2h(val)}")
         cases.append((grid, subs, val, got, kind, list(r.axis_names)))
